@@ -17,9 +17,9 @@ A = ETF("A")
 B = ETF("B")
 F1 = ES(2021, 3)
 F2 = ES(2021, 6)
-CHAIN = FutureChain(contracts=[F1, F2])
+CHAIN = FutureChain(contracts=[F2, F1])      # explicit listings are given out of chronological order on purpose
 F3 = ES(2021, 9)
-CHAIN1 = FutureChain(contracts=[F1, F2, F3], month=1)     # a chain addressing the DEFERRED month: the contract after the lead
+CHAIN1 = FutureChain(contracts=[F3, F1, F2], month=1)     # a chain addressing the DEFERRED month: the contract after the lead
 A_IDX = Index("A")     # another asset class carrying the SAME symbol: contracts are identified by their symbol
 KEYS = [A, B, F1, F2, CHAIN, A_IDX, CHAIN1]
 KEYNAMES = ["A", "B", "F1", "F2", "CHAIN", "Index(A)", "CHAIN(month=1)"]
